@@ -15,4 +15,9 @@ LEVEL = {
     },
 }
 
+LEVEL["C14"] = {
+    "text": "Lean theorems: decode∘encode = id for every string and quote character for all three quote states, decode is total and shape-preserving on non-literals, and for the expression/CSV states the encoded form placed in a stream is read back as exactly one token that decodes to the original (induction over the string). Tied to the Go quote states by exhaustive small-scope and random differential runs plus a direct round-trip oracle.",
+    "design_ref": "DESIGN.md 4/C14", "note": _NOTE, "technique": "Lean 4 proof (round-trip laws by structural induction) + model/implementation correspondence check",
+}
+
 NOT_APPLICABLE = {}
